@@ -39,6 +39,9 @@ FTYPES = {
     # a fn pointer written with its own binder
     "FnHr": ("for<'x> fn(&'x T) -> &'x T", "T", False, None),
     # a fn pointer without return type behind a reference / raw pointer (`&'l fn(T): Trait` does not parse as a predicate)
+    # one type, two spellings (listed known finding: the two predicates are ambiguous for rustc); core cases only
+    "FnRefA": ("fn(&T)", "T", False, None),
+    "FnRefB": ("fn(t: &T) -> ()", "T", False, None),
     "RefFn": ("&'l fn(T)", "T", True, None),
     "PtrFn": ("*const fn(T)", "T", False, None),
     "FnPtrFn": ("fn() -> *mut fn(T)", "T", False, None),
@@ -67,7 +70,7 @@ def concrete_ok(ft, trait):
         return trait != "Neg"
     if ft == "RefU8":
         return trait in ("Copy", "Clone", "Debug", "PartialEq", "Eq", "PartialOrd", "Ord", "Hash")
-    if ft in ("FnHr", "RefFn", "PtrFn", "FnPtrFn"):
+    if ft in ("FnHr", "RefFn", "PtrFn", "FnPtrFn", "FnRefA", "FnRefB"):
         # with the operators the harness' own hand-written twin would need a second binder; the plain traits are what matters
         return trait in PLAIN
     return True
@@ -77,7 +80,7 @@ def gen_spec(rng, trait=None):
     trait = trait or rng.choice(PLAIN + PLAIN + C.BINOPS + C.ASSIGNOPS + C.UNOPS)
     is_op = trait not in PLAIN
     kind = "struct" if is_op else rng.choice(["struct", "struct", "enum"])
-    pool = [f for f in FTYPES if concrete_ok(f, trait)]
+    pool = [f for f in FTYPES if concrete_ok(f, trait) and f not in ("FnRefA", "FnRefB")]
     nv = 1 if kind == "struct" else rng.randint(1, 3)
     variants = []
     for vi in range(nv):
@@ -243,7 +246,7 @@ def used_fields(spec):
 def bounded_types(spec):
     seen, out = set(), []
     for f in used_fields(spec):
-        ft = FTYPES[f["ft"]]
+        ft = FTYPES[{"FnRefB": "FnRefA"}.get(f["ft"], f["ft"])]     # one predicate per type, however the field spells it
         if ft[1] and ft[0] not in seen:     # mentions a type or const parameter
             seen.add(ft[0])
             out.append(ft[0])
@@ -403,7 +406,7 @@ def core(rng):
     # every trait x a few characteristic field types, struct form
     for t in PLAIN + C.BINOPS + C.ASSIGNOPS + C.UNOPS:
         for fts in (["PhT", "T"], ["FwdT", "AlwaysT"], ["NeverT"], ["OptT", "u8"], ["ArrN", "Yes"], ["Assoc", "U"], ["TupT8", "Tup8T"],
-                    ["ResT8", "FnT8"], ["FnHr", "T"], ["FnHr"], ["RefFn"], ["PtrFn", "u8"], ["FnPtrFn", "T"], ["QAssocRel", "ArrTup"], ["OptTup"], ["ParT", "TupTc"], ["ParOpt", "RefPar"]):
+                    ["ResT8", "FnT8"], ["FnHr", "T"], ["FnHr"], ["FnRefA", "FnRefB"], ["FnRefA", "FnRefA", "u8"], ["RefFn"], ["PtrFn", "u8"], ["FnPtrFn", "T"], ["QAssocRel", "ArrTup"], ["OptTup"], ["ParT", "TupTc"], ["ParOpt", "RefPar"]):
             k += 1
             fts = [f for f in fts if concrete_ok(f, t)]
             specs.append({"trait": t, "kind": "struct", "entry": "attr" if k % 2 else "derive", "where_tr": k % 4 == 0, "dv": 0,
@@ -471,7 +474,10 @@ def run(rep, tier, rng):
             d = next((d for d in c.diags if d["level"] == "error" and d["in_derive_ex"]), None) or next(d for d in c.diags if d["level"] == "error")
             rep.evaluations += 1
             modes = sorted({f["mode"] for v in s["variants"] for f in v["fields"]})
-            sigs.setdefault(f"C03|generated-impl-does-not-typecheck|{d['code']}|{s['trait'] if s['trait'] in PLAIN else 'op'}|{'+'.join(modes)}", []).append(
+            sig = f"C03|generated-impl-does-not-typecheck|{d['code']}|{s['trait'] if s['trait'] in PLAIN else 'op'}|{'+'.join(modes)}"
+            if d["code"] in ("E0283", "E0284", "E0204") and {"FnRefA", "FnRefB"} <= {f["ft"] for v in s["variants"] for f in v["fields"]}:
+                sig = "C03|generated-impl-does-not-typecheck|E0283|one-type-two-spellings"     # listed finding
+            sigs.setdefault(sig, []).append(
                 (c, f"{d['code']}: {(d['message'] or '')[:160]}: {describe(s)}"))
             continue
         rep.count("types_run")
